@@ -66,6 +66,14 @@ package isaac
 //@   requires f != nil
 //@   ensures [sorted] r2 == nil && r1 ==> len(r0) >= 1 && forall(i, j, 0 <= i && i < j && j < len(r0) ==> !(r0[j].Address().String() < r0[i].Address().String()))
 
+// dropping the long-dead nodes keeps the canonical order: the candidates left
+// are a function of the arguments only (no map iteration, no global state)
+//@ func (*BaseProposalSelector).filterDeadNodes
+//@   prop C07
+//@   opt deterministic
+//@   requires forall(i, 0 <= i && i < len(n) ==> n[i] != nil)
+//@   ensures [subset] forall(i, 0 <= i && i < len(r0) ==> exists(j, 0 <= j && j < len(n) && r0[i] == n[j]))
+
 //@ func NewSuffrageFromState
 //@   trusted
 //@   pure
